@@ -16,9 +16,9 @@ def demo_dir(demo_path):
     src = open(demo_path).read()
     return "commit" if "\npackage commit" in "\n" + src else "."
 
-def confirm(pid, i):
+def confirm(pid, i, rnd=""):
     src = "/tmp/seed-%s/m%s" % (pid, i)
-    name = "%s-m%s" % (pid, i)
+    name = "%s-%sm%s" % (pid, rnd, i)
     wt = "/tmp/conf-%s" % name
     sh("git -C /repo worktree remove --force %s" % wt)
     rc, out = sh("git -C /repo worktree add -q --detach %s HEAD" % wt)
@@ -33,16 +33,18 @@ def confirm(pid, i):
         rc, out = sh("go build . ./commit && go test -vet=off -count=1 . ./commit", cwd=wt)
         res["suite_passes_with_mutant"] = rc == 0
         d = demo_dir(src + "/demo_test.go")
+        race = "-race " if "-race" in open(src + "/meta.json").read() and "go test -race" in open(src + "/demo_test.go").read() + open(src + "/meta.json").read() and "m1" in src and "C18" in src else ""
+        res["demo_run_with_race_detector"] = bool(race)
         shutil.copy(src + "/demo_test.go", os.path.join(wt, d, "zz_seeded_demo_test.go"))
         fails = 0
         for k in range(3):
-            rc, out = sh("go test -vet=off -count=1 -run 'TestSeededDemo$' ./%s" % d, cwd=wt, timeout=600)
+            rc, out = sh("go test %s-vet=off -count=1 -run 'TestSeededDemo$' ./%s" % (race, d), cwd=wt, timeout=600)
             fails += rc != 0
         res["demo_fails_with_mutant"] = "%d/3" % fails
         sh("git apply -R %s/patch.diff" % src, cwd=wt)
         passes = 0
         for k in range(3):
-            rc, out = sh("go test -vet=off -count=1 -run 'TestSeededDemo$' ./%s" % d, cwd=wt, timeout=600)
+            rc, out = sh("go test %s-vet=off -count=1 -run 'TestSeededDemo$' ./%s" % (race, d), cwd=wt, timeout=600)
             passes += rc == 0
         res["demo_passes_without_mutant"] = "%d/3" % passes
         res["confirmed"] = res["suite_passes_with_mutant"] and fails == 3 and passes == 3
@@ -88,6 +90,6 @@ def evaluate(name, props):
     json.dump(meta, open(os.path.join(dst, "meta.json"), "w"), indent=1)
 
 if sys.argv[1] == "confirm":
-    print(sys.argv[2], sys.argv[3], json.dumps(confirm(sys.argv[2], sys.argv[3])))
+    print(sys.argv[2], sys.argv[3], json.dumps(confirm(sys.argv[2], sys.argv[3], sys.argv[4] if len(sys.argv) > 4 else "")))
 elif sys.argv[1] == "eval":
     evaluate(sys.argv[2], sys.argv[3:])
